@@ -46,10 +46,40 @@ class Creators:
     Gfa instances, which are not complete.
     """
     if self._version is None:
-      self._version = self._version_guess
-    for i in range(0,len(self._line_queue)):
-      self.add_line(self._line_queue[i])
-    self._line_queue = []
+      self.__version_found(self._version_guess, self._version_explanation, None)
+    else:
+      for i in range(0,len(self._line_queue)):
+        self.add_line(self._line_queue[i])
+      self._line_queue = []
+
+  def __version_found(self, version, explanation, gfa_line):
+    """
+    The version of the Gfa becomes known: the lines in the queue are added,
+    then the line which decided the version (if any).
+
+    If any of them is refused, the Gfa goes back to the state in which
+    the version was not known (only header and comments are connected
+    in that state) and the error is passed on.
+    """
+    queue = list(self._line_queue)
+    saved = (self._version, self._version_explanation, self._version_guess)
+    self._version = version
+    self._version_explanation = explanation
+    try:
+      if self._vlevel > 0:
+        self._validate_version()
+      for queued in queue:
+        self.add_line(queued)
+      self._line_queue = []
+      if gfa_line is not None:
+        gfa_line.connect(self)
+    except:
+      for line in self.lines:
+        if line.record_type not in ["H", "#"] and line.is_connected():
+          line.disconnect()
+      self._version, self._version_explanation, self._version_guess = saved
+      self._line_queue = queue
+      raise
 
   def _register_line(self, gfa_line):
     self._api_private_check_gfa_line(gfa_line, "_register_line")
@@ -104,36 +134,31 @@ class Creators:
         # refuse the line before anything is changed
         raise gfapy.VersionError(
             "GFA specification version {} not supported".format(gfa_line.VN))
+      header_before = ({k: (gfapy.FieldArray(v.datatype, list(v._data)) \
+                             if isinstance(v, gfapy.FieldArray) else v) \
+                            for k, v in self.header._data.items()},
+                       dict(self.header._datatype))
       self.header._merge(gfa_line)
       if gfa_line.VN:
-        if gfa_line.VN == "1.0":
-          self._version = "gfa1"
-        elif gfa_line.VN == "2.0":
-          self._version = "gfa2"
-        else:
-          self._version = gfa_line.VN
-        self._version_explanation = "specified in header VN tag"
-        if self._vlevel > 0:
-          self._validate_version()
-        self.process_line_queue()
+        version = {"1.0": "gfa1", "2.0": "gfa2"}.get(gfa_line.VN, gfa_line.VN)
+        try:
+          self.__version_found(version, "specified in header VN tag", None)
+        except:
+          self.header._data, self.header._datatype = header_before
+          raise
     elif rt == "S":
       if isinstance(gfa_line, str):
         gfa_line = gfapy.Line(gfa_line, vlevel=self._vlevel,
             dialect=self._dialect)
-      self._version = gfa_line.version
-      self._version_explanation = \
-          "implied by: syntax of S {} line".format(gfa_line.name)
-      self.process_line_queue()
-      gfa_line.connect(self)
+      self.__version_found(gfa_line.version,
+          "implied by: syntax of S {} line".format(gfa_line.name), gfa_line)
     elif rt in ["E", "F", "G", "U", "O"]:
       if isinstance(gfa_line, str):
         # (constructed first: a malformed line shall not set the version)
         gfa_line = gfapy.Line(gfa_line, vlevel=self._vlevel,
             version="gfa2", dialect=self._dialect)
-      self._version = "gfa2"
-      self._version_explanation = "implied by: presence of a {} line".format(rt)
-      self.process_line_queue()
-      gfa_line.connect(self)
+      self.__version_found("gfa2",
+          "implied by: presence of a {} line".format(rt), gfa_line)
     elif rt in ["L", "C", "P"]:
       self._version_guess = "gfa1"
       self._line_queue.append(gfa_line)
